@@ -47,6 +47,9 @@ func (b rBlock) String() string {
 type c16Cfg struct {
 	Name   string `json:"name"`
 	Voters int    `json:"genesis_voters"`
+	// LongTimeout: the accept-proposer timeout (150 s) is longer than the electing period (100 s) -
+	// legal, and the period alone must then trigger the election
+	LongTimeout bool `json:"accept_timeout_longer_than_period,omitempty"`
 }
 
 type rSnap struct {
@@ -85,6 +88,9 @@ type c16Inst struct {
 
 func (c c16Cfg) genesis() (*sim.GenesisCfg, []sim.Member) {
 	g := sim.DefaultCfg(1, c.Voters)
+	if c.LongTimeout {
+		g.RelayerParams.AcceptProposerTimeout = 150 * time.Second
+	}
 	members := append([]sim.Member{g.Proposer}, g.Voters...)
 	a := sim.NewMember("cand-a")
 	b := sim.NewMember("cand-b-with-account")
@@ -534,7 +540,7 @@ func (in *c16Inst) Step(nd mc.Node, b rBlock, path []rBlock, silent bool) mc.Nod
 func (n *rNode) rejoined(idx int, in *c16Inst) bool { return false }
 
 func c16Configs(thorough bool) []c16Cfg {
-	cs := []c16Cfg{{Name: "proposer-only", Voters: 0}, {Name: "proposer+1", Voters: 1}, {Name: "proposer+2", Voters: 2}}
+	cs := []c16Cfg{{Name: "proposer-only", Voters: 0}, {Name: "proposer+1", Voters: 1}, {Name: "proposer+2", Voters: 2}, {Name: "proposer+1-timeout-longer-than-period", Voters: 1, LongTimeout: true}}
 	return cs
 }
 
